@@ -267,8 +267,13 @@ func thoroughExtras(c *Ctx, f func(*Ctx)) {
 		f(c2)
 	}()
 	n := 0
+	primary := map[string]Status{}
+	for _, o := range c.Obls {
+		primary[o.ID()] = o.Status
+	}
 	for _, o := range c2.Obls {
-		if o.Status != Discharged {
+		// an obligation that already failed identically on the primary load is not reported twice
+		if o.Status != Discharged && primary[o.ID()] != o.Status {
 			o.Key += " [GOARCH=386]"
 			c.Obls = append(c.Obls, o)
 		}
